@@ -4,6 +4,8 @@
    op = 1 <key> qclass <script> tb ta asked <result>     CacheHandler::handle_query
           <key> = nlabels {len octet*}* qtype do cd
           <script> = 0 (upstream silent) | 2 (upstream answers garbage) | 1 <ttls> <ttls> <ttls>
+                     | 3 rcode <ttls> <ttls> <ttls>   (a reply with a non-zero rcode)
+      | 4 s ns <the fields of 1>                          the same, the look-up having waited s.ns for the cache's lock
           tb, ta = clock before / after the call, each as  seconds nanoseconds
           asked = number of datagrams the scripted upstream received
           <result> = 0 <rrs> <rrs> <rrs> | 1 errkind | 2 (panic)       <rrs> = n {ttl id}*
@@ -57,7 +59,7 @@ Definition tok_script (ts : list N) : option (result * list N) :=
   match ts with
   | 0 :: r => Some (RErr 1, r)
   | 2 :: r => Some (RErr 5, r)
-  | 1 :: r =>
+  | 1 :: r | 3 :: _ :: r =>          (* 3 rcode ...: a reply with that rcode; the cache does not look at it *)
     match tok_ttls r with Some (a, r) =>
     match tok_ttls r with Some (n, r) =>
     match tok_ttls r with Some (d, r) =>
@@ -87,7 +89,7 @@ Inductive dop :=
 
 Definition tok_op (ts : list N) : option (dop * list N) :=
   match ts with
-  | 1 :: r =>
+  | 1 :: r | 4 :: _ :: _ :: r =>      (* 4 s ns ...: the look-up waited s.ns for the cache's lock; tb is when it got it *)
     match tok_key r with
     | Some (k, qc :: r) =>
       match tok_script r with Some (up, r) =>
